@@ -448,3 +448,8 @@ mod tests {
         assert!(output.is_err());
     }
 }
+
+// verification hook (guard: cfg(kani)); contract harnesses live outside the repository
+#[cfg(kani)]
+#[path = "/verif/kani/ntp_proto/keyset.rs"]
+mod verif;
